@@ -8,7 +8,8 @@ Wire format (mirrored by `harness/src/bin/c07.rs`); `x?` is `()` or `(x)`, `o` i
 
     jar      := ((name attr content)*)            content := dir | (other o) | (class class)
     class    := (o name name? (name*) (field*) (method*) ((inner*))? encl? sig? (ann*) (ann*) (tann*) (tann*)
-                 o? ((name*))? name? name? ((name*))? ((name*))? (rc*) (o*))
+                 module? ((name*))? name? name? ((name*))? ((name*))? (rc*) (o*))
+    module   := (o (name*) ((name (name*))*))      -- shape, uses, provides (service, implementations)
     field    := (o name desc sig? (ann*) (ann*) (tann*) (tann*) (o*))
     method   := (o name desc code? ((name*))? sig? (ann*) (ann*) (tann*) (tann*) ev? o (o*))
     code     := (o (entry*) (exc*) ((lv*))? (tann*) (tann*) (o*))
@@ -20,7 +21,8 @@ Wire format (mirrored by `harness/src/bin/c07.rs`); `x?` is `()` or `(x)`, `o` i
     exc      := (o name?)                         lv := (o name desc? sig?)
     ann      := (desc ((name ev)*))               tann := (o ann)
     ev       := (o o) | (e desc name) | (c desc) | (a ann) | (r (ev*))
-    inner    := (name name? name? o)              encl := (name (name desc)?)          rc := (name desc o)
+    inner    := (name name? name? o)              encl := (name (name desc)?)
+    rc       := (name desc sig? (ann*) (ann*) (tann*) (tann*) (o*))
     table    := ((name name?)*) ((desc desc?)*) (((owner name desc) (name desc)?)*) (((owner name desc) (name desc)?)*)
 
 The table lists the remapper's answers (`()` = the remapper failed); a question that is not listed is answered like a
@@ -149,7 +151,17 @@ def dEncl : Sexp → Option Enclosing
   | _ => none
 
 def dRc : Sexp → Option RecordComponent
-  | .list [n, d, r] => do pure ⟨← dStr n, ← dStr d, r⟩
+  | .list [n, d, sig, rva, ria, rvta, rita, attrs] => do
+    pure ⟨← dStr n, ← dStr d, ← dOpt dStr sig, ← dList dAnn rva, ← dList dAnn ria, ← dList dTann rvta,
+      ← dList dTann rita, ← dOpaques attrs⟩
+  | _ => none
+
+def dProvides : Sexp → Option ModuleProvides
+  | .list [n, ws] => do pure ⟨← dStr n, ← dList dStr ws⟩
+  | _ => none
+
+def dModule : Sexp → Option Module
+  | .list [s, uses, provides] => do pure ⟨s, ← dList dStr uses, ← dList dProvides provides⟩
   | _ => none
 
 def dClass : Sexp → Option ClassFile
@@ -158,7 +170,7 @@ def dClass : Sexp → Option ClassFile
       shape := s, name := ← dStr n, superClass := ← dOpt dStr sup, interfaces := ← dList dStr itfs,
       fields := ← dList dField fields, methods := ← dList dMethod methods, innerClasses := ← dOpt (dList dInner) ics,
       enclosingMethod := ← dOpt dEncl em, signature := ← dOpt dStr sig, rva := ← dList dAnn rva, ria := ← dList dAnn ria,
-      rvta := ← dList dTann rvta, rita := ← dList dTann rita, module := ← dOpt some mod,
+      rvta := ← dList dTann rvta, rita := ← dList dTann rita, module := ← dOpt dModule mod,
       modulePackages := ← dOpt (dList dStr) mp, moduleMainClass := ← dOpt dStr mmc, nestHost := ← dOpt dStr nh,
       nestMembers := ← dOpt (dList dStr) nm, permittedSubclasses := ← dOpt (dList dStr) ps,
       recordComponents := ← dList dRc rcs, attributes := ← dOpaques attrs }
@@ -251,12 +263,16 @@ def eMethod (m : Method) : Sexp :=
 
 def eInner (i : InnerClass) : Sexp := list [eStr i.inner, eOpt eStr i.outer, eOpt eStr i.innerName, i.flags]
 def eEncl (e : Enclosing) : Sexp := list [eStr e.cls, eOpt (fun p => list [eStr p.1, eStr p.2]) e.method]
-def eRc (c : RecordComponent) : Sexp := list [eStr c.name, eStr c.desc, c.rest]
+def eRc (c : RecordComponent) : Sexp :=
+  list [eStr c.name, eStr c.desc, eOpt eStr c.signature, eList eAnn c.rva, eList eAnn c.ria, eList eTann c.rvta,
+    eList eTann c.rita, list c.attributes]
+def eProvides (p : ModuleProvides) : Sexp := list [eStr p.name, eList eStr p.providesWith]
+def eModule (m : Module) : Sexp := list [m.shape, eList eStr m.uses, eList eProvides m.provides]
 
 def eClass (c : ClassFile) : Sexp :=
   list [c.shape, eStr c.name, eOpt eStr c.superClass, eList eStr c.interfaces, eList eField c.fields,
     eList eMethod c.methods, eOpt (eList eInner) c.innerClasses, eOpt eEncl c.enclosingMethod, eOpt eStr c.signature,
-    eList eAnn c.rva, eList eAnn c.ria, eList eTann c.rvta, eList eTann c.rita, eOpt id c.module,
+    eList eAnn c.rva, eList eAnn c.ria, eList eTann c.rvta, eList eTann c.rita, eOpt eModule c.module,
     eOpt (eList eStr) c.modulePackages, eOpt eStr c.moduleMainClass, eOpt eStr c.nestHost,
     eOpt (eList eStr) c.nestMembers, eOpt (eList eStr) c.permittedSubclasses, eList eRc c.recordComponents,
     list c.attributes]
@@ -278,6 +294,7 @@ def eRefTag : Ref → Sexp
   | .fieldRef f => list [tag "fr", eRef f]
   | .methodRef m => list [tag "mr", eRef m]
   | .enumConst t c => list [tag "ec", eStr t, eStr c]
+  | .recordDecl n d => list [tag "rd", eStr n, eStr d]
 
 /-! ## the remapper given as a table of answers -/
 
@@ -311,17 +328,28 @@ def outOfDomain : Ans := .ok (tag "out-of-domain")
 
 def sameSexp (a b : Sexp) : Bool := a.toStr == b.toStr
 
-/-- `Thm.C07.remap_refs_partial` evaluated on the model -/
+/-- `Thm.C07.remap_refs` evaluated on the model: no domain -/
 def oracleRefs (r : Remapper) (c : ClassFile) : Ans :=
-  if !(Kept c && Agree r c) then outOfDomain else
   verdict ((remapClass r c).map refsClass == omapM (applyRef r c.name) (refsClass c)) "refs"
 
-/-- `Thm.C07.remap_shape_partial` -/
+/-- `Thm.C07.remap_shape`: whenever the remap succeeds -/
 def oracleShape (r : Remapper) (c : ClassFile) : Ans :=
-  if !Kept c then outOfDomain else
   match remapClass r c with
   | none => outOfDomain
   | some c' => verdict (sameSexp (eClass (eraseClass c')) (eClass (eraseClass c))) "shape"
+
+/-- the inner names of the result are what a consistent renaming makes of them -/
+def innerNamesOk (c c' : ClassFile) : Bool :=
+  let olds := c.innerClasses.getD []
+  let news := c'.innerClasses.getD []
+  olds.length == news.length &&
+    (List.zip olds news).all fun (i, j) => j.innerName == expectedInnerName i.inner j.inner i.innerName
+
+/-- `Thm.C07.remap_inner_name`: whenever the remap succeeds -/
+def oracleInnerNames (r : Remapper) (c : ClassFile) : Ans :=
+  match remapClass r c with
+  | none => outOfDomain
+  | some c' => verdict (innerNamesOk c c') "inner-name"
 
 def contentKind : Content → Nat
   | .dir => 0 | .other _ => 1 | .cls _ => 2
@@ -345,15 +373,13 @@ def oracleEntries (r : Remapper) (j : Jar) : Ans :=
            | _, _ => false) &&
           (stripDotClass a.1 != none || b.1 == a.1)) "entries"
 
-/-! ### full-strength statements without domain (only used to replay the witnesses of the findings) -/
+/-! ### the same statements under the names the regression lines of the repaired findings use -/
 
-def oracleFullRefs (r : Remapper) (c : ClassFile) : Ans :=
-  verdict ((remapClass r c).map refsClass == omapM (applyRef r c.name) (refsClass c)) "refs"
+def oracleFullRefs (r : Remapper) (c : ClassFile) : Ans := oracleRefs r c
 
-def oracleFullShape (r : Remapper) (c : ClassFile) : Ans :=
-  match remapClass r c with
-  | none => outOfDomain
-  | some c' => verdict (sameSexp (eClass (eraseClass c')) (eClass (eraseClass c))) "shape"
+def oracleFullShape (r : Remapper) (c : ClassFile) : Ans := oracleShape r c
+
+/-! ### what a consistent renaming would also have renamed (replay of the open findings) -/
 
 def isInfix (p s : JStr) : Bool := (List.range (s.length + 1)).any fun i => p.isPrefixOf (s.drop i)
 
@@ -368,11 +394,6 @@ def pairsOf (c : ClassFile) : List (JStr × JStr) :=
     | .mk t ps => ps.map fun p => match p with | .mk n _ => (t, n)
   (c.fields.flatMap fun f => (f.rva ++ f.ria).flatMap ofAnn) ++
   (c.methods.flatMap fun m => (m.rva ++ m.ria).flatMap ofAnn) ++ (c.rva ++ c.ria).flatMap ofAnn
-
-def lastDollar (n : JStr) : Option (JStr × JStr) :=
-  match (n.reverse.span (· != 36)) with
-  | (suf, _ :: pre) => some (pre.reverse, suf.reverse)
-  | _ => none
 
 /-- rows of the mapping set in the request: (class, new class name?, [(method name, new name)]) -/
 def dMapRows : Sexp → Option (List (JStr × Option JStr × List (JStr × JStr)))
@@ -407,10 +428,7 @@ def oracleFullNames (rows : List (JStr × Option JStr × List (JStr × JStr))) (
            | some (_, nn) => n' == nn
            | none => true)
         | none => true
-    let innerOk := (List.zip (c.innerClasses.getD []) (c'.innerClasses.getD [])).all fun (i, i') =>
-      match i.innerName, lastDollar i.inner, lastDollar i'.inner with
-      | some s, some (_, old), some (_, new) => old != s || i'.innerName == some new
-      | _, _, _ => true
+    let innerOk := innerNamesOk c c'
     if staleSig then .ok (list [tag "fail", tag "signature"])
     else if !elemOk then .ok (list [tag "fail", tag "element-name"])
     else if !innerOk then .ok (list [tag "fail", tag "inner-name"])
@@ -440,14 +458,9 @@ def handleC07 (op : String) (args : List Sexp) : Option Ans :=
   | "oracle-remap-shape", [c, _, _, t] => do
     let c ← dClass c; let r ← dTable t
     pure (oracleShape r c)
-  | "oracle-code-refs", [c, _, _, t] => do
+  | "oracle-inner-names", [c, _, _, t] => do
     let c ← dClass c; let r ← dTable t
-    pure (verdict ((remapClass r c).map refsClass == omapM (codeApply r c.name) (refsClass (strip c))) "refs")
-  | "oracle-code-shape", [c, _, _, t] => do
-    let c ← dClass c; let r ← dTable t
-    pure (match remapClass r c with
-      | none => outOfDomain
-      | some c' => verdict (sameSexp (eClass (eraseClass c')) (eClass (eraseClass (strip c)))) "shape")
+    pure (oracleInnerNames r c)
   | "oracle-full-refs", [c, _, _, t] => do
     let c ← dClass c; let r ← dTable t
     pure (oracleFullRefs r c)
